@@ -572,9 +572,9 @@ def plan_C05(rep, seed, tier):
     rep.add_mc(r['name'], r, 'Layer I clean-up of decode_to_str* / convert_*_to_str_partial (zero MAX_STRIDE_SIZE, then strip continuation bytes): every valid old buffer, every written prefix, every garbage pattern in the stride window => valid UTF-8')
     if r.get('violated') or not r.get('completed'):
         rep.notes.append('MODEL-ALARM MC_StrZeroing: ' + (r.get('error_text') or '')[:1000])
-    rv(rep, binp, 'mem', seed, tier, shards=32, extra=['--which', 'c05', '--thin', '3'] if tier == 'quick' else ['--which', 'c05', '--thin', '4'], tag='mem-str')
+    rv(rep, binp, 'mem', seed, tier, shards=32, extra=['--which', 'c05', '--thin', '3'] if tier == 'quick' else ['--which', 'c05', '--thin', '12'], tag='mem-str')
     simd = build_harness('simd')
-    rv(rep, simd, 'mem', seed, tier, shards=32, extra=['--which', 'c05', '--thin', '4'] if tier == 'quick' else ['--which', 'c05', '--thin', '6'], tag='mem-str-simd', build='simd')
+    rv(rep, simd, 'mem', seed, tier, shards=32, extra=['--which', 'c05', '--thin', '4'] if tier == 'quick' else ['--which', 'c05', '--thin', '16'], tag='mem-str-simd', build='simd')
     rv(rep, simd, 'dec-cutsets', seed, tier, extra=['--sinks', 'str,string', '--thin', '6' if tier == 'quick' else '1'], tag='dec-cutsets-str-simd', build='simd', budget=8e6)
     rep.cov['rule'] = ('decode_to_str* / decode_to_string* on all cut sets of short class-alphabet streams: destination pre-filled with valid text of 1..4-byte '
                        'characters, whole destination validated after every call (also after the panic of a reused finished decoder); written prefix validated on every call of every sink')
@@ -701,7 +701,7 @@ def plan_C18(rep, seed, tier):
     rv(rep, binp, 'dec-cutsets', seed, tier, extra=['--twins', '--thin', '2' if tier == 'quick' else '1'], tag='dec-cutsets-twins')
     rv(rep, binp, 'enc-cutsets', seed, tier, extra=['--twins', '--thin', '2' if tier == 'quick' else '1'], tag='enc-cutsets-twins')
     rv(rep, binp, 'dec-random', seed, tier, extra=['--twins'], tag='dec-random-twins')
-    rv(rep, binp, 'mem', seed, tier, shards=32, extra=['--which', 'c15', '--thin', '3' if tier == 'quick' else '5'], tag='mem-fills')
+    rv(rep, binp, 'mem', seed, tier, shards=32, extra=['--which', 'c15', '--thin', '3' if tier == 'quick' else '14'], tag='mem-fills')
     rep.cov['rule'] = ('every mem conversion executed with the destination pre-filled 0xA5 / 0x00 / 0xFF; every call executed on three converters in lockstep with the destination (incl. String/Vec spare capacity) pre-filled 0x00 / 0xFF / 0xA5; '
                        'return tuples and dst[..written] must be identical')
 
@@ -933,9 +933,9 @@ def plan_C14(rep, seed, tier):
 
 def plan_C15(rep, seed, tier):
     binp = build_harness('default')
-    rv(rep, binp, 'mem', seed, tier, shards=32, extra=['--which', 'c15', '--thin', '2'] if tier == 'quick' else ['--which', 'c15', '--thin', '4'])
+    rv(rep, binp, 'mem', seed, tier, shards=32, extra=['--which', 'c15', '--thin', '2'] if tier == 'quick' else ['--which', 'c15', '--thin', '10'])
     simd = build_harness('simd')
-    rv(rep, simd, 'mem', seed, tier, shards=32, extra=['--which', 'c15', '--thin', '3'] if tier == 'quick' else ['--which', 'c15', '--thin', '6'], tag='mem-c15-simd', build='simd')
+    rv(rep, simd, 'mem', seed, tier, shards=32, extra=['--which', 'c15', '--thin', '3'] if tier == 'quick' else ['--which', 'c15', '--thin', '14'], tag='mem-c15-simd', build='simd')
     rep.cov['rule'] = ('every convert_* / copy_* / ensure_* / decode_latin1 / encode_latin1_lossy on the recipe inputs of C14; partial forms with destination lengths '
                        '0..5, 7, 8, 15..17, full-3..full+1 and seeded ones; exact output, maximal whole-character read/written, unmodified-beyond-written where documented')
 
